@@ -1,7 +1,28 @@
 import Batteries.Tactic.Alias
 import GenlmModel.Proofs.Fst
-/-! # C10 — transducer composition counts every matching path pair exactly once -/
+/-! # C10 — transducer composition counts every matching path pair exactly once
+About the mirror models of `fst.py` (`FST.compose` / `compose'` = the two association branches of
+`__matmul__` through `_augment_epsilon_transitions` and `epsilon_filter_fst`), every commutative semiring. -/
 namespace Genlm.Props.C10
+/-- the driver's table is the path-sum specification -/
 alias oracle_is_path_sum := Genlm.TPNtab_spec
-alias transpose_swaps_tapes := Genlm.transpose_Tk
+/-- THE composition theorem, graded by how many arcs each operand takes: accepting paths of `T1 @ T2`
+in which T1 moves k1 times and T2 k2 times weigh Σ_y TPk T1 k1 x y · TPk T2 k2 y z — every pair of
+matching paths exactly once, with ε moves on both machines (Mohri's filter) -/
+alias compose_counts_each_pair_once := Genlm.compose_graded_TPk
+alias compose_graded := Genlm.compose_graded
+/-- summing the grades gives the plain path sum of the composed machine -/
+alias compose_grades_total := Genlm.compose_GPN_total
+/-- without ε on the middle tape: plain relational composition -/
+alias compose_epsfree := Genlm.compose_epsfree_TPN
+/-- both association branches of `__matmul__` give the same relation -/
+alias compose_association_irrelevant := Genlm.compose'_Tk
+alias product_construction := Genlm.composeRaw_Tk
+alias transpose_swaps_tapes := Genlm.transpose_TPN
+alias diag_spec := Genlm.diag_TPN
+alias project_out_spec := Genlm.project_out_PN
+alias project_in_spec := Genlm.project_in_PN
+alias from_string_spec := Genlm.fromStringT_spec
+alias from_pairs_spec := Genlm.fromPairs_spec
+alias eval_epsfree := Genlm.evalN_epsfree
 end Genlm.Props.C10
